@@ -66,6 +66,7 @@ static CO_ERR COTSyncIdWrite(struct CO_OBJ_T *obj, struct CO_NODE_T *node, void 
     CO_SYNC *sync;
     uint32_t nid;
     uint32_t oid;
+    CO_ERR   pending;
 
     CO_UNUSED(size);
 
@@ -92,8 +93,17 @@ static CO_ERR COTSyncIdWrite(struct CO_OBJ_T *obj, struct CO_NODE_T *node, void 
         /* SYNC producer activation */
         if (((nid & CO_SYNC_COBID_ON) != 0)) {
             sync->CobId = nid;
+            /* detect errors of this activation, only */
+            pending     = node->Error;
+            node->Error = CO_ERR_NONE;
             COSyncProdActivate(sync);
-            if (node->Error == CO_ERR_SYNC_RES) {
+            if (node->Error == CO_ERR_NONE) {
+                node->Error = pending;
+                pending     = CO_ERR_NONE;
+            } else {
+                pending     = node->Error;
+            }
+            if (pending == CO_ERR_SYNC_RES) {
                 /*
                  * Unable to start timer, return back
                  * the old COB-ID and report error
